@@ -42,7 +42,7 @@ prop("C05",
      COMMON_ASSUMPTIONS)
 
 prop("C02",
-     ["OW1", "OW2", "HD1", "RJ1", "OW4", "IN1", "PV1"],
+     ["OW1", "OW2", "HD1", "RJ1", "OW4", "IN1", "PV1", "EQ1"],
      "The inheritance mechanism is a sharing discipline: object lists and segment objects are shared between segments. Decided: "
      "(OW1) every store to a segment object's slots goes through an object created in the same activation (alias analysis; who-may-write), "
      "(OW2) typestate of self.ordered_objects: mutated only after a fresh copy, helpers called only from the parser, shared index "
@@ -61,7 +61,7 @@ prop("C13",
      COMMON_ASSUMPTIONS)
 
 prop("C14",
-     ["DT1", "DT2", "DT3", "DT4", "LN1", "NK2", "SF1"],
+     ["DT1", "DT2", "DT3", "DT4", "LN1", "NK2", "SF1", "DL1"],
      "Abstract dtype interpretation of every scale method over dtype witnesses (zero-length arrays, Python-scalar coefficients; NumPy as "
      "oracle of its own promotion rules) against the table read from MultiScaling._compute_scale_dtype, for every scaling class x real "
      "numeric raw dtype (thorough: both byte orders, NumPy-scalar coefficients, all Add/Subtract pairs); dtype source of every empty "
@@ -83,7 +83,7 @@ prop("C08",
      COMMON_ASSUMPTIONS)
 
 prop("C01",
-     ["TD1", "BL1", "BL2", "BL3", "PR1", "GR1", "UD1", "OW4", "NK2", "PV1"],
+     ["TD1", "BL1", "BL2", "BL3", "PR1", "GR1", "UD1", "OW4", "NK2", "PV1", "PT3", "EQ1"],
      "Type x layout dispatch exhaustiveness over the 17 admitted channel types and every decoder branch; every fixed-size record "
      "unpacked with a format of exactly the size read; type-table consistency; byte-order threading; insertion-ordered containers "
      "filled in file order with last-value-wins properties and once-per-segment updates; groups never replaced during the object "
@@ -140,7 +140,7 @@ prop("C19",
      COMMON_ASSUMPTIONS)
 
 prop("C07",
-     ["DTA", "IS1", "NK1", "BL4", "BL2", "BL5", "WT1", "UC1", "UD1", "PT1", "PT3"],
+     ["DTA", "IS1", "NK1", "BL4", "BL2", "BL5", "WT1", "UC1", "UD1", "PT1", "PT3", "EQ1"],
      "Places where writer and reader must agree on a table, threshold or layout: decision-table analysis of the integer type thresholds "
      "(every cell of the partition induced by the constants), isinstance dispatch order and mapping, exact-integer timestamp fields not routed "
      "through float64 beyond 2**53 (interval analysis), timestamp layout siblings, injective type tables, length fields, ToC flags, one codec, "
